@@ -8,6 +8,7 @@ import (
 	"os"
 	"strings"
 	"sync/atomic"
+	"testing/synctest"
 	"time"
 
 	"github.com/zen-eth/shisui/portalwire"
@@ -26,6 +27,7 @@ type e2eCase struct {
 	Size int     `json:"size,omitempty"`      // findcontent: content size
 	Keys int     `json:"keys,omitempty"`      // offer: number of keys
 	Drop int     `json:"drop"`                // index of the datagram that is lost (-1: none)
+	Ask  string  `json:"ask,omitempty"`       // findcontent: "" = one FINDCONTENT request; "lookup" = the recursive ContentLookup (holder in the asker's table)
 	Via  string  `json:"via,omitempty"`       // "gnet": both nodes receive through the receive path of portalwire/gnet.go
 	Dev  string  `json:"deviation,omitempty"` // "" = lost, "dup" = delivered twice, "swap" = delivered after its successor, "cut" = this and every later datagram lost
 }
@@ -107,6 +109,9 @@ func e2eRun(r *mc.Report, c e2eCase, finish func(digest string)) (digest string,
 		if c.Via != "" {
 			site = fmt.Sprintf("%s:%v-%v:via-%s", c.Op, c.VA, c.VBs, c.Via)
 		}
+		if c.Ask != "" {
+			site += ":asked-through-" + c.Ask
+		}
 		if c.Drop >= 0 {
 			site = c.Op + ":one-datagram-" + map[string]string{"": "lost", "dup": "duplicated", "swap": "reordered", "cut": "and-all-later-ones-lost", "late-accept": "-no-loss-but-the-responder-accepts-late"}[c.Dev]
 		}
@@ -122,8 +127,23 @@ func e2eRun(r *mc.Report, c e2eCase, finish func(digest string)) (digest string,
 			var res interface{}
 			var err error
 			done := false
+			if c.Ask == "lookup" {
+				b.P.VerifTable().AddFound(a.Self(), true)
+				synctest.Wait()
+			}
 			go func() {
-				flag, res, err = b.P.VerifFindContent(a.Self(), key)
+				if c.Ask == "lookup" { // the caller most users go through: it picks the holder from the table and reads the stream itself
+					var content []byte
+					content, _, err = b.P.ContentLookup(key, b.P.ToContentId(key))
+					if err == nil {
+						res = content
+						if content == nil {
+							res = []byte{}
+						}
+					}
+				} else {
+					flag, res, err = b.P.VerifFindContent(a.Self(), key)
+				}
 				done = true
 			}()
 			_, timedOut := w.pump(func() bool { return done }, 10*time.Minute, decide)
@@ -250,6 +270,12 @@ func e2eCasesFor(prop string, thorough bool) []e2eCase {
 				for _, size := range []int{0, 1, 5000} {
 					if via != "" {
 						cs = append(cs, e2eCase{Prop: prop, Op: "findcontent", VA: v, VBs: v, Size: size, Drop: -1, Via: via})
+					}
+				}
+				// the same question through the recursive lookup (the holder is in the asker's table)
+				if via == "" {
+					for _, size := range []int{0, 1, 1175, 1176, 5000} {
+						cs = append(cs, e2eCase{Prop: prop, Op: "findcontent", VA: v, VBs: v, Size: size, Drop: -1, Ask: "lookup"})
 					}
 				}
 			}
